@@ -268,6 +268,12 @@ func (b *Bus) Publish(ctx context.Context, e *wire.Envelope) error {
 			b.S.Event(to, "recv:"+msgType(e.Msg), desc+" <- "+from+" (taken by the driver)")
 			return nil
 		}
+		if err := ctx.Err(); err != nil {
+			// (LocalBus.Publish would choose at random between delivering and
+			// giving up when the context is done already: decided here instead)
+			b.S.Event(from, "send-timeout", desc)
+			return err
+		}
 		b.S.Event(to, "recv:"+msgType(e.Msg), desc+" <- "+from+" (through the library's local bus)")
 		err := b.Inner.Publish(ctx, e2)
 		if err != nil {
